@@ -1,4 +1,5 @@
 import LekkerVerif.Model.Prune
+import LekkerVerif.Proofs.WiringDetach
 
 /-! # C19 — prune() removes exactly the dead branches and nothing else -/
 
@@ -105,3 +106,17 @@ example : (prune (.solver [.model true, .solver [.model true, .solver []], .mode
 example : dead (.solver [.model true, .solver [.model true, .solver []]]) = true := by simp [dead, deadAll]
 
 end Prune
+
+
+/-! ### the survivors' wiring is untouched -/
+
+/-- `prune()` drops a dead placement with `remove_structure`; a placed model without pins has no connection, so in every
+consistent wiring state the solver's connections, connection list and free pins are exactly what they were: the
+surviving structures keep their wiring and their free pins (hence the pruned solver solves like the clean build, C07) -/
+theorem C19_survivor_wiring_untouched (w : Wiring.W) (inv : Wiring.WInv w) (i : Nat) (o : Wiring.SObj)
+    (hs : i ∈ w.structs) (ho : Wiring.getObj w i = some o) (hp : o.pins = []) :
+    (Wiring.removeStruct w i).1.conns = w.conns ∧ (Wiring.removeStruct w i).1.clist = w.clist ∧
+    (Wiring.removeStruct w i).1.free = w.free ∧ (Wiring.removeStruct w i).1.structs = w.structs.erase i ∧
+    Wiring.WInv (Wiring.removeStruct w i).1 := by
+  obtain ⟨h1, h2, h3, h4⟩ := Wiring.remove_pinless w inv i o hs ho hp
+  exact ⟨h1, h2, h3, h4, Wiring.removeStruct_inv w inv i⟩
